@@ -25,7 +25,7 @@ RULE = ("family A (2/3 of cases): random TypeSpec as C01 with lax constraints sw
         "multiple_of, Decimals at several scales. Non-trivial = first parse accepted, so the re-parse relation (and for "
         "exact domains the strict form) was evaluated; distinct = (spec shape, options, input class).")
 ASSUMPTIONS = [
-    "equality is type-aware and NaN-aware (1 != 1.0 != True; nan == nan)",
+    "equality is type-aware and NaN-aware (1 != 1.0; nan == nan); an equal instance of a sub/superclass of a scalar's type counts as equal (True vs 1): the statement says 'an equal value'",
     "results that are one-shot iterators / file objects cannot be re-parsed meaningfully: skipped",
     "float domains: only the fixed point is required (property text); exact domains: int, Decimal, str, list/tuple",
 ]
@@ -134,7 +134,7 @@ def _stable(builder, spec, v, opts):
         o = _parse_with(builder, spec, v, opts)
     except Exception:
         return True
-    return o.ok and V.approx_eq(o.value, v)
+    return o.ok and V.approx_eq(o.value, v, sub_ok=True)
 
 
 def locate(builder, spec, v, opts, depth=0):
@@ -274,7 +274,7 @@ def run_case(case, ctx):
             out2 = run(lambda: entry(r1))
             sig = (shape, okey, route, TS.value_class(x))
             wit = {"spec": TS.describe(spec), "options": opts, "route": route, "input": xr, "first": short(r1, 160), "second": repr(out2)}
-            if not out2.ok or not V.approx_eq(out2.value, r1):
+            if not out2.ok or not V.approx_eq(out2.value, r1, sub_ok=True):
                 try:
                     node, nv = locate(b, spec, r1, opts)
                     detail = mechanism(b, node, nv, opts)
@@ -289,7 +289,7 @@ def run_case(case, ctx):
                     kind = "reparse-rejected"
                 ctx.violation(f"C03/{detail}" if detail.startswith("lax-") else f"C03/{kind}/{detail}", f"{TS.describe(spec)[:200]} opts={opts}: T({xr}) = {short(r1, 80)} but T of that -> {out2!r}", wit, sig=sig)
                 continue
-            if not V.approx_eq(out2.value, r1):
+            if not V.approx_eq(out2.value, r1, sub_ok=True):
                 ctx.violation(f"C03/{detail}" if detail.startswith("lax-") else f"C03/reparse-differs/{detail}", f"{TS.describe(spec)[:200]} opts={opts}: T({xr}) = {short(r1, 80)}, T of that = {short(out2.value, 80)}", wit, sig=sig)
                 continue
             # lax -> strict form on exact domains (top-level constrained spec only: family B)
